@@ -32,6 +32,9 @@ def norm(v):
     return v
 
 
+SHIFT = [100]   # the preprocessor transforms its element (x -> x + 100); return_x must still pair with the ORIGINAL x
+
+
 def reference(n, fail, rej, rx, rex):
     out = []
     for x in range(n):
@@ -52,6 +55,7 @@ def run_sync(n, fail, rej, rx, rex, capacity):
     from mpservice.streamer._streamer import fifo_stream
 
     def func(x):
+        x = x - SHIFT[0] if rej is not None else x
         fut = concurrent.futures.Future()
         if x == fail:
             fut.set_exception(Boom('func', x))
@@ -62,7 +66,7 @@ def run_sync(n, fail, rej, rx, rex, capacity):
     def pre(x):
         if x == rej:
             raise Boom('pre', x)
-        return x
+        return x + SHIFT[0]
 
     out = []
     try:
@@ -84,6 +88,7 @@ def run_async(variant, n, durs, fail, rej, rx, rex, capacity):
                 yield i
 
         async def work(x):
+            x = x - SHIFT[0] if rej is not None else x     # the preprocessor's output is what the worker receives
             if durs[x]:
                 await asyncio.sleep(durs[x])
             if x == fail:
@@ -96,7 +101,7 @@ def run_async(variant, n, durs, fail, rej, rx, rex, capacity):
         def pre(x):
             if x == rej:
                 raise Boom('pre', x)
-            return x
+            return x + SHIFT[0]
 
         kw = dict(return_x=rx, return_exceptions=rex, preprocessor=pre if rej is not None else None)
         if variant == 'afifo':
